@@ -76,6 +76,12 @@ def projStep (toks : List String) : Option String :=
     | [gref, uz, pts] =>
       pure (";".intercalate ((imageToPlaneBatch c m (← parseV gref) (← parseV uz) (← parsePts pts)).map showOV))
     | _ => none
+  | ["coacache", ops] => do
+    -- ops: comma separated `<param set index>:<0|1 override>`; answer: index in effect (N = nothing stored)
+    let parsed ← (if ops == "-" then some [] else (ops.splitOn ",").mapM (fun t => match t.splitOn ":" with
+      | [i, o] => do pure ((← i.toNat?), o == "1")
+      | _ => none))
+    pure (match coaRun parsed with | none => "N" | some i => toString i)
   | ["blocks", n, len] => do
     let n ← n.toNat?
     let len ← len.toNat?
